@@ -30,7 +30,7 @@ func TestDebug(t *testing.T) {
 	case "C24b":
 		sp = c2324specs("C24")[1]
 	case "C06":
-		sp = c06specs()[0]
+		sp = c06specs()[12]
 	default:
 		t.Fatal("unknown spec")
 	}
